@@ -7,6 +7,7 @@ import (
 	"context"
 	"errors"
 	"fmt"
+	"os"
 	"runtime"
 	"strings"
 	"testing"
@@ -21,6 +22,7 @@ import (
 	"github.com/streamingfast/substreams/pipeline/exec"
 	"github.com/streamingfast/substreams/service"
 	"google.golang.org/protobuf/proto"
+	"google.golang.org/protobuf/reflect/protoreflect"
 	"pgregory.net/rapid"
 
 	"verif/ev"
@@ -246,6 +248,11 @@ func genC17(t *rapid.T) c17Case {
 		}
 		msg = req
 	}
+	// generic structure-aware mutation: any field of any (nested) message of the request, whatever the hand-written
+	// breaks above thought of
+	for n := rapid.SampledFrom([]int{0, 0, 1, 1, 2}).Draw(t, "nreflect"); n > 0; n-- {
+		mutateAnyField(t, msg.ProtoReflect(), names)
+	}
 	b, err := proto.Marshal(msg)
 	if err != nil {
 		// invalid UTF-8 cannot happen with this generator; keep the case judgeable anyway
@@ -377,6 +384,9 @@ func runC17(c c17Case) (out c17Outcome, f *ev.Failure) {
 		out.step = step
 		mapped := service.VerifToConnectError(context.Background(), fmt.Errorf("error building request plan: %w", err))
 		ev.Get("C17", "Requests").Count("plan-rejection-code="+connect.CodeOf(mapped).String(), 1)
+		if os.Getenv("VERIF_C17_PLANCODE") != "" && connect.CodeOf(mapped) != connect.CodeInvalidArgument {
+			f = ev.Failf("reject/wrong-code/BuildTier1RequestPlan", "rejected with %v: %v (start %d stop %d prod %v resolved start %d hand-off %d lowest init %d)", connect.CodeOf(mapped), mapped, req.StartBlockNum, req.StopBlockNum, req.ProductionMode, rd.ResolvedStartBlockNum, rd.LinearHandoffBlockNum, eg.LowestInitBlock())
+		}
 		return
 	}
 	out.step = "accepted"
@@ -418,7 +428,7 @@ func checkC17(c c17Case) *ev.Failure {
 }
 
 func TestC17(t *testing.T) {
-	ev.Get("C17", "Requests").Rule = "rapid, structure-aware: tier1 Request / tier2 ProcessRangeRequest with every field of every module free (absent kinds and oneofs, dangling/self/cyclic references, duplicate and empty names, out-of-range and huge binary indexes, filters on non-index modules, huge initial blocks, arbitrary start/stop/cursor) or a valid generated graph with one field broken; the server's sequence ValidateTier{1,2}Request -> exec.NewOutputModuleGraph -> BuildRequestDetails -> BuildTier1RequestPlan, each only if the previous accepted, must return without panic within 10 s and < 256 MiB allocated, and a request-caused rejection of BuildRequestDetails must map to invalid_argument through the service's own error mapping; non-trivial = rejected by a step after the first, or accepted with >= 3 modules; outcome histogram under counters"
+	ev.Get("C17", "Requests").Rule = "rapid, structure-aware: tier1 Request / tier2 ProcessRangeRequest with every field of every module free (absent kinds and oneofs, dangling/self/cyclic references, duplicate and empty names, out-of-range and huge binary indexes, filters on non-index modules, huge initial blocks, arbitrary start/stop/cursor) or a valid generated graph with one field broken; on top of either, 0..2 generic mutations of any field of any nested message (protobuf reflection: empty, boundary numbers, names of the request, out-of-range enums, cleared or empty sub-messages, truncated or duplicated list elements); the server's sequence ValidateTier{1,2}Request -> exec.NewOutputModuleGraph -> BuildRequestDetails -> BuildTier1RequestPlan, each only if the previous accepted, must return without panic within 10 s and < 256 MiB allocated, and a request-caused rejection of BuildRequestDetails must map to invalid_argument through the service's own error mapping; non-trivial = rejected by a step after the first, or accepted with >= 3 modules; outcome histogram under counters"
 	r := ev.Get("C17", "Requests")
 	rapid.Check(t, func(rt *rapid.T) {
 		c := genC17(rt)
@@ -436,3 +446,86 @@ func TestC17(t *testing.T) {
 }
 
 func TestC17Replay(t *testing.T) { ev.Replay(t, "C17", "Requests", checkC17) }
+
+// mutateAnyField picks one field of one message of the tree rooted at m (uniformly over the populated messages)
+// and gives it another value: empty, a boundary, a name of the request, a duplicate, or nothing at all.
+func mutateAnyField(t *rapid.T, root protoreflect.Message, names []string) {
+	var msgs []protoreflect.Message
+	var walk func(m protoreflect.Message)
+	walk = func(m protoreflect.Message) {
+		if !m.IsValid() {
+			return // a oneof member that is selected with a nil payload: nothing to mutate in it
+		}
+		msgs = append(msgs, m)
+		m.Range(func(fd protoreflect.FieldDescriptor, v protoreflect.Value) bool {
+			switch {
+			case fd.IsList() && fd.Message() != nil:
+				for i := 0; i < v.List().Len(); i++ {
+					walk(v.List().Get(i).Message())
+				}
+			case fd.IsMap():
+			case fd.Message() != nil:
+				walk(v.Message())
+			}
+			return true
+		})
+	}
+	walk(root)
+	if len(msgs) == 0 {
+		return
+	}
+	m := msgs[rapid.IntRange(0, len(msgs)-1).Draw(t, "rmsg")]
+	fds := m.Descriptor().Fields()
+	if fds.Len() == 0 {
+		return
+	}
+	fd := fds.Get(rapid.IntRange(0, fds.Len()-1).Draw(t, "rfield"))
+	if fd.IsMap() {
+		return
+	}
+	if fd.IsList() {
+		l := m.Mutable(fd).List()
+		switch rapid.IntRange(0, 2).Draw(t, "rlist") {
+		case 0:
+			l.Truncate(0)
+		case 1:
+			if l.Len() > 0 {
+				l.Truncate(l.Len() - 1)
+			}
+		default:
+			if l.Len() > 0 { // duplicate an element
+				e := l.Get(rapid.IntRange(0, l.Len()-1).Draw(t, "rdup"))
+				if fd.Message() != nil {
+					l.Append(protoreflect.ValueOfMessage(proto.Clone(e.Message().Interface()).ProtoReflect()))
+				} else {
+					l.Append(e)
+				}
+			}
+		}
+		return
+	}
+	switch fd.Kind() {
+	case protoreflect.StringKind:
+		m.Set(fd, protoreflect.ValueOfString(rapid.SampledFrom(append([]string{"", "ghost", "a:b", " "}, names...)).Draw(t, "rstr")))
+	case protoreflect.BytesKind:
+		m.Set(fd, protoreflect.ValueOfBytes([]byte(rapid.SampledFrom([]string{"", "x"}).Draw(t, "rbytes"))))
+	case protoreflect.BoolKind:
+		m.Set(fd, protoreflect.ValueOfBool(!m.Get(fd).Bool()))
+	case protoreflect.Uint64Kind, protoreflect.Fixed64Kind:
+		m.Set(fd, protoreflect.ValueOfUint64(rapid.SampledFrom([]uint64{0, 1, 2, 1 << 32, 1<<63 - 1, 1 << 63, ^uint64(0)}).Draw(t, "ru64")))
+	case protoreflect.Uint32Kind, protoreflect.Fixed32Kind:
+		m.Set(fd, protoreflect.ValueOfUint32(rapid.SampledFrom([]uint32{0, 1, 2, 1 << 31, ^uint32(0)}).Draw(t, "ru32")))
+	case protoreflect.Int64Kind, protoreflect.Sint64Kind, protoreflect.Sfixed64Kind:
+		m.Set(fd, protoreflect.ValueOfInt64(rapid.SampledFrom([]int64{0, 1, -1, 1<<63 - 1, -(1 << 63)}).Draw(t, "ri64")))
+	case protoreflect.Int32Kind, protoreflect.Sint32Kind, protoreflect.Sfixed32Kind:
+		m.Set(fd, protoreflect.ValueOfInt32(rapid.SampledFrom([]int32{0, 1, -1, 1<<31 - 1, -(1 << 31)}).Draw(t, "ri32")))
+	case protoreflect.EnumKind:
+		m.Set(fd, protoreflect.ValueOfEnum(protoreflect.EnumNumber(rapid.SampledFrom([]int32{0, 1, 2, 7, 99, -1}).Draw(t, "renum"))))
+	case protoreflect.MessageKind, protoreflect.GroupKind:
+		if rapid.Bool().Draw(t, "rclear") {
+			m.Clear(fd) // also switches a oneof off
+		} else {
+			m.Set(fd, protoreflect.ValueOfMessage(m.NewField(fd).Message())) // present but empty (selects this member of a oneof)
+		}
+	}
+}
